@@ -12,6 +12,7 @@ import (
 	"fmt"
 	"io"
 	"net"
+	"os"
 	"runtime"
 	"sort"
 	"strings"
@@ -24,14 +25,18 @@ import (
 	"github.com/goplus/xgo/x/fakenet"
 	"pgregory.net/rapid"
 
+	"verif/internal/gen/supervise"
 	"verif/internal/vk"
 )
 
 func TestMain(m *testing.M) {
+	if code, parent := supervise.Run("C41", "panic: "); parent {
+		os.Exit(code)
+	}
 	fakenet.VerifYield = dispatch
 	vk.Main(m, "C41", "exploration",
 		"histories over one fakenet.NewConn(source, sink): 1-3 readers and 1-3 writers, each with ops completed before the race (awaited), ops started in the race phase and ops started after Close returned; the source hands out a drawn chunking of a fixed byte pattern and blocks when its drawn token budget is used up (its Close may or may not unblock it), the sink records every call (optionally blocking, its Close may or may not stop writes); Close is called by 1-2 goroutines once a drawn hook point has been reached a drawn number of times (do:enter / do:sent / run:recv / run:result of the read or write feeder); a drawn yield script says for the k-th arrival at a hook point: Gosched x n and/or park until close-called / close-returned. "+
-			"Oracle over the recorded history (global sequence numbers, buffers identified by address): an op started after Close returned yields (0, io.EOF) and its buffer never reaches the source/sink; an op that is at a do: hook point when Close has returned yields (0, io.EOF); every other op yields io.EOF only if it overlaps Close, else exactly what its single source/sink call returned, with the right bytes; sink calls are whole unmodified chunks, per writer in order without gap or duplicate; source/sink calls never overlap; after Close returns all ops return without the source being released (30 s watchdog, a stall counts only if it reproduces 3 times). "+
+			"Oracle over the recorded history (global sequence numbers; an op is recognised at the source/sink by its unique buffer length, the buffer address is only used to see whether the feeder keeps the caller's buffer): an op started after Close returned yields (0, io.EOF) and its buffer never reaches the source/sink; an op that is at a do: hook point when Close has returned yields (0, io.EOF); every other op yields io.EOF only if it overlaps Close, else exactly what its single source/sink call returned, with the right bytes; sink calls are whole unmodified chunks, per writer in order without gap or duplicate; source/sink calls never overlap; no source/sink call that carries the caller's own buffer is running or starts after the Read/Write has returned; after Close returns all ops return without the source being released (30 s watchdog, a stall counts only if it reproduces 3 times). "+
 			"Non-trivial = Close with at least one pending op, or an op started after Close; distinct = hash of the case document")
 }
 
